@@ -28,6 +28,7 @@ func main() {
 	verif := flag.String("verif", "/verif", "verif root (evidence, known findings)")
 	dump := flag.String("dump-terms", "", "debug: print terms of a function")
 	caps := flag.Bool("caps", false, "debug: print the capability matrix")
+	bank := flag.Bool("bank", false, "debug: print bank call sites")
 	explain := flag.String("explain", "", "print a violation file")
 	flag.Parse()
 	if *explain != "" {
@@ -67,6 +68,10 @@ func main() {
 	et := eff.Build(p, mods)
 	if *dump != "" {
 		dumpTerms(p, mods, *dump)
+		return
+	}
+	if *bank {
+		dumpBank(p, et)
 		return
 	}
 	if *caps {
